@@ -76,6 +76,10 @@ def cases(tier, seed):
     for k in range(500 if q else 6000):
         i += 1
         yield {"id": i, "fam": "hier", "seed": base + 5_000_000 + k, "hlen": 8 if k % 4 else 20, "api": True}
+    for k in range(600 if q else 8000):
+        # the state is saved to JSON and restored between events (at random points of the history)
+        i += 1
+        yield {"id": i, "fam": ("hier", "formula", "refs")[k % 3], "seed": base + 9_000_000 + k, "hlen": 12, "rt": True}
     L = 5 if q else 7
     nprog = 12 if q else 40
     for k in range(nprog):
@@ -158,6 +162,7 @@ def _begin():
     _W["states"] = 0
     _W["problems"] = []
     _W["facts"] = []
+    _W["roundtrips"] = 0
 
 
 def _finish(base, prog, history):
@@ -172,6 +177,7 @@ def _finish(base, prog, history):
         "max_index_entries": max([f["index_entries"] for f in _W["facts"]] or [0]),
         "fam_" + base["fam"]: 1,
         "cases_through_process_events": int(bool(base.get("api"))),
+        "state_roundtrips_between_events": _W.get("roundtrips", 0),
     }
     res = dict(base, observed=obs, nontrivial=nontrivial)
     if _W["problems"]:
@@ -221,6 +227,19 @@ def _drive(src, history, seed, base):
             else:
                 ev = {"type": h}
             fed.append(ev["type"])
+            if base.get("rt") and api is None and rng.random() < 0.4:
+                # the caller keeps the conversation as JSON between two events (what LLMRails.generate(state=...) does on
+                # every call): the restored state's index must be as exact as the live one's, now and after later events
+                from nemoguardrails.colang.v2_x.runtime import serialization as ser
+
+                try:
+                    st = ser.json_to_state(ser.state_to_json(st))
+                except Exception as e_:  # C11's subject; the states reached so far were checked
+                    r = _finish(base, src, fed)
+                    if r["verdict"] == "violated":
+                        return r
+                    return dict(base, verdict="inconclusive", reason="expected:state-not-serialisable(C11):%s" % type(e_).__name__)
+                _W["roundtrips"] = _W.get("roundtrips", 0) + 1
             out = api.run(ev) if api is not None else v2h.run(st, ev)
             for e in out:
                 if e["type"].startswith("Start") and e["type"].endswith("Action"):
@@ -250,6 +269,8 @@ def run_case(case):
     base = {"fam": fam}
     if case.get("api"):
         base["api"] = True
+    if case.get("rt"):
+        base["rt"] = True
     if fam == "hier":
         g = gen_v2.gen_hierarchy(rng, max_flows=6, with_vars=rng.random() < 0.3, loops=rng.random() < 0.3, depth_bias=rng.random() < 0.5, ext_end=rng.random() < 0.4)
         hist = []
